@@ -47,6 +47,7 @@ def _found_branch(ctx):
 
 
 def r1_dispatch(ctx):
+    C13.r4_merge_or_append(ctx)
     fn, body, orelse = _found_branch(ctx)
     stm = [norm(s) for s in body]
     ci = next((i for i, s in enumerate(body) if isinstance(s, ast.If) and norm(s.test).endswith(".constant") and any(isinstance(x, ast.Raise) for x in s.body)), None)
@@ -98,7 +99,7 @@ def r2_pipeline(ctx):
         ctx.check(ok, TN, "NumberType.convert", "value is read in its own unit and asked for in the target unit", detail=norm(c),
                   expected="Quantity(float(self.value), self.unit).value(unit)")
     src = norm(fn).replace("\n", " ")
-    ctx.check("if unit: if self.unit and self.unit != unit:" in src, TN, "NumberType.convert",
+    ctx.form("if unit: if self.unit and self.unit != unit:" in src, TN, "NumberType.convert",
               "a unit-less assignment (or an unchanged unit) is taken as it is; otherwise converted", detail=None)
     adopt = [a for a in ast.walk(fn) if isinstance(a, ast.Assign) and norm(a.targets[0]) == "self.unit"]
     ctx.check(len(adopt) == 1 and norm(adopt[0].value) == "unit", TN, "NumberType.convert", "after conversion the value carries the target unit")
